@@ -662,12 +662,24 @@ pair1_set_send_buf_len(void *arg, const void *buf, size_t sz, nni_type t)
 	pair1_sock *s = arg;
 	int         val;
 	nng_err     rv;
+	nni_aio    *aio;
 
 	if ((rv = nni_copyin_int(&val, buf, sz, 0, 8192, t)) != NNG_OK) {
 		return (rv);
 	}
 	nni_mtx_lock(&s->mtx);
 	rv = nni_lmq_resize(&s->wmq, (size_t) val);
+	// There may be room now for senders that were blocked on a full
+	// buffer: admit them, in order, before anybody new gets in.
+	while ((!nni_lmq_full(&s->wmq)) &&
+	    ((aio = nni_list_first(&s->waq)) != NULL)) {
+		nni_msg *m   = nni_aio_get_msg(aio);
+		size_t   len = nni_msg_len(m);
+		nni_aio_list_remove(aio);
+		nni_lmq_put(&s->wmq, m);
+		nni_aio_set_msg(aio, NULL);
+		nni_aio_finish(aio, 0, len);
+	}
 	// Changing the size of the queue can affect our readiness.
 	if (!nni_lmq_full(&s->wmq)) {
 		nni_pollable_raise(&s->writable);
